@@ -288,6 +288,23 @@ def run(index, rep, tier):
         nb = borrow(index, rep, "C10", {"R10.16"}, "R11.11")
         rep.floor("R11.11", "borrowed obligations", 1, nb)
 
+    # ---- R11.12 a taxon the symbol mapper is told about can be found by its label
+    with rep.section("R11.12"):
+        rep.rule("R11.12", "a taxon the symbol mapper is told about can be found by its label: every method of NexusTaxonSymbolMapper that takes a `taxon` and files it under a token or a number also files it in label_taxon_map (unless the label is there already). The TRANSLATE statement of a file without TAXA block creates its taxa through the namespace, behind the mapper's back; a later tree that spells the labels out must find those taxa, not create a second set with the same labels")
+        msm = index.klass("dendropy.dataio.nexusprocessing.NexusTaxonSymbolMapper")
+        n12 = 0
+        for mname, mf in sorted(msm.methods.items()):
+            if "taxon" not in mf.params:
+                continue
+            ws = [w for w in writes_in(mf.node) if w.kind == "substore" and w.attr in ("token_taxon_map", "number_taxon_map", "label_taxon_map")]
+            if not any(w.attr != "label_taxon_map" for w in ws):
+                continue
+            n12 += 1
+            bylabel = [w for w in ws if w.attr == "label_taxon_map"]
+            rep.check(bool(bylabel), "R11.12", mf.qualname, "taxon filed without its label", fn_where(mf), "%s files the taxon by label too" % mname,
+                      "NexusTaxonSymbolMapper.%s files the taxon under %s but not in label_taxon_map: a taxon created by TRANSLATE in a file without TAXA block is then unknown to the mapper by label, and a later tree of the same block that spells the labels out (`tree t2 = (a,(b,c));` after `translate 1 a, 2 b, 3 c;`) gets NEW taxa - the namespace reads a,b,c,a,b,c and the two trees share no taxon" % (mname, " / ".join(sorted({w.attr for w in ws}))))
+        rep.floor("R11.12", "mapper methods that file a taxon", 2, n12)
+
 
 def _bound(index, fi, w, val):
     """is the stored value bound to self.taxon_namespace on every path?"""
